@@ -35,7 +35,7 @@ theorem negateInPlaceL_spec {W : Nat} {nd raw : List Nat} (hnd : IsWords W nd) (
     (hl : nd.length = raw.length) (hle : val W raw ≤ val W nd) :
     ∃ out, negateInPlaceL W nd raw = .ok out ∧ out.length = raw.length ∧ IsWords W out ∧
       val W out = if val W raw = 0 then 0 else val W nd - val W raw := by
-  unfold negateInPlaceL
+  unfold negateInPlaceL subFromModulusL
   by_cases hz : raw.all (fun w => w == 0) = true
   · rw [if_pos hz]
     have := (all_zero_iff W raw).1 hz
@@ -66,7 +66,7 @@ theorem condSubL_spec {W : Nat} {nd l1 : List Nat} {c : Nat} {overflow : Bool} (
     ∃ out, condSubL W nd l1 overflow = .ok out ∧ out.length = nd.length ∧ IsWords W out ∧
       val W out = (if val W l1 + 2 ^ (W * nd.length) * c ≥ val W nd
                    then val W l1 + 2 ^ (W * nd.length) * c - val W nd else val W l1 + 2 ^ (W * nd.length) * c) := by
-  unfold condSubL
+  unfold condSubL subModulusL
   rw [cmpSameLen_spec W l1 nd hl hl1 hnd]
   have hl1lt := val_lt W l1 hl1
   rw [hl] at hl1lt
@@ -130,7 +130,7 @@ theorem condAddL_spec {W : Nat} {nd l1 : List Nat} {c u t : Nat} (hnd : IsWords 
     (hs : val W l1 + t = u + 2 ^ (W * nd.length) * c) :
     ∃ out, condAddL W nd l1 c = .ok out ∧ out.length = nd.length ∧ IsWords W out ∧
       val W out = (if u ≥ t then u - t else val W nd - (t - u)) := by
-  unfold condAddL
+  unfold condAddL addModulusL
   have hl1lt := val_lt W l1 hl1
   rw [hl] at hl1lt
   by_cases hc0 : c = 0
@@ -267,5 +267,28 @@ theorem negRawKL_eq (hwf : r.WF W) (hk : r.kind = .large → 1 ≤ r.n) {a : Nat
     simp only [unwrapWords, Except.map, unwrapRaw, hv, va, hndv, negRaw]
 
 end ring
+
+/-- `IntoRing for IBig` with every division kernel and the negation on buffers = the `%`-level model -/
+theorem reduceIntKA_eq {W id m : Nat} {r : Ring} (hW : 0 < W) (hW4 : r.kind = .large → 4 ≤ W)
+    (hnew : Ring.new W id m = .ok r) (a : Int) : reduceIntKA W r a = reduceInt W r a := by
+  have hwf := Ring.new_wf hW hnew
+  have hn : r.kind = .large → 1 ≤ r.n := fun hk => by have := hwf.kind_n.2.2 hk; omega
+  unfold reduceIntKA reduceInt
+  rw [rawOfNatKL_eq hW hW4 hnew]
+  have hlt : rawOfNat W r a.natAbs < r.M := by
+    rw [rawOfNat_eq hwf]
+    exact Nat.mul_lt_mul_of_pos_right (Nat.mod_lt _ hwf.mpos) (Nat.two_pow_pos _)
+  simp only [negRawKL_eq hwf hn hlt]
+
+theorem subBothKL_eq {W id m : Nat} {r : Ring} (hW : 0 < W) (hnew : Ring.new W id m = .ok r)
+    (a b : Elem) (ha : a.ring = r) (hva : a.raw < r.M) (hvb : b.raw < r.M) :
+    a.subBothKL W b = a.sub b := by
+  have hwf := Ring.new_wf hW hnew
+  have hn : r.kind = .large → 1 ≤ r.n := fun hk => by have := hwf.kind_n.2.2 hk; omega
+  subst ha
+  unfold Elem.subBothKL Elem.subKL Elem.subSwapKL Elem.sub
+  by_cases hs : sameRing a b = true
+  · simp only [hs, if_true, subRawKL_eq hwf hn hva hvb, subSwapRawKL_eq hwf hn hva hvb]
+  · simp only [hs]; rfl
 
 end Dashu.Model.NT
